@@ -15,8 +15,8 @@ def run(ctx):
     recs = []
     seeds = [ctx.seed] if q else [ctx.seed + i for i in range(4)]
     for s in seeds:
-        recs += smf.gen(ctx, "wfault", 80 if q else 600, s + 500, "c10", big=not q)
-        recs += smf.gen(ctx, "rfault", 80 if q else 600, s + 600, "c10", big=not q)
+        recs += smf.gen(ctx, "wfault", 80 if q else 600, s + 500, "c10", big=True)
+        recs += smf.gen(ctx, "rfault", 80 if q else 600, s + 600, "c10", big=True)
     fails = smf.validate(ctx, recs)
     n = sum(len(r["faults"]) for r in recs)
     ctx.count(n, [(r["ev"], r["id"], f["k"], f.get("mode", f.get("frag"))) for r in recs for f in r["faults"] if f["k"] > 0],
